@@ -171,6 +171,16 @@ impl LanguageServer for Backend {
             .await;
     }
 
+    async fn did_close(&self, params: DidCloseTextDocumentParams) {
+        self.client
+            .log_message(MessageType::INFO, "did_close")
+            .await;
+
+        let url = params.text_document.uri;
+
+        self.send(MsgToServer::DidClose { url }).await;
+    }
+
     async fn did_change_watched_files(&self, params: DidChangeWatchedFilesParams) {
         for change in params.changes {
             self.client
